@@ -27,9 +27,9 @@ func GenerateDatatype(datatype profile.DatatypeRule, iriExpander *misc.IriExpand
 		datatypeIri = datatype.Argument
 	}
 	if datatype.Negated {
-		rego = append(rego, fmt.Sprintf("check_datatype(%s,\"%s\")", valueVariable, datatypeIri))
+		rego = append(rego, fmt.Sprintf("check_datatype(%s,\"%s\")", valueVariable, misc.RegoStringContent(datatypeIri)))
 	} else {
-		rego = append(rego, fmt.Sprintf("not check_datatype(%s,\"%s\")", valueVariable, datatypeIri))
+		rego = append(rego, fmt.Sprintf("not check_datatype(%s,\"%s\")", valueVariable, misc.RegoStringContent(datatypeIri)))
 	}
 	tracePath, err := datatype.Path.Trace(iriExpander)
 	if err != nil {
@@ -42,7 +42,7 @@ func GenerateDatatype(datatype profile.DatatypeRule, iriExpander *misc.IriExpand
 		Path:       tracePath,
 		TraceNode:  datatype.Variable.Name,
 		TraceValue: BuildTraceValueNode(
-			fmt.Sprintf("\"negated\":%t,\"actual\": %s,\"expected\": \"%s\"", datatype.Negated, valueVariable, datatypeIri)),
+			fmt.Sprintf("\"negated\":%t,\"actual\": %s,\"expected\": \"%s\"", datatype.Negated, valueVariable, misc.RegoStringContent(datatypeIri))),
 		Variable: valueVariable,
 	}
 	return []SimpleRegoResult{r}
